@@ -522,3 +522,54 @@ def time_newticker(eng, st, fr, args, ins):
     st.heap[oid] = GoChan((zt,) * TICKER_TICKS, TICKER_TICKS, False)
     eng.objtype[oid] = "<-chan time.Time"
     return eng.alloc_val(st, "time.Ticker", (ChanRef(oid), True))
+
+
+# ---- gin request/response (zzverif.HTTPGet / HTTPResult): a *gin.Context is a heap object (query pairs, recorded response)
+GIN_T = "github.com/gin-gonic/gin.Context"
+
+
+@intr("github.com/agglayer/aggkit/internal/zzverifhttp.HTTPGet")
+def zz_httpget(eng, st, fr, args, ins):
+    sl = args[0]
+    vals = [] if sl is None or sl is NIL_SLICE else [eng.load(st, Ptr(sl.arr.obj, sl.arr.path + (sl.off + i,))) for i in range(sl.len)]
+    if len(vals) % 2:
+        raise GoPanic("zzverif.HTTPGet: odd number of arguments")
+    q = tuple((vals[i], vals[i + 1]) for i in range(0, len(vals), 2))
+    return eng.alloc_val(st, "zz:gin", (q, None))
+
+
+@intr("(*" + GIN_T + ").Query")
+def gin_query(eng, st, fr, args, ins):
+    q, _ = eng.load(st, args[0])
+    for k, v in q:
+        if k == args[1]:
+            return v
+    return ""
+
+
+@intr("(*" + GIN_T + ").JSON")
+def gin_json(eng, st, fr, args, ins):
+    q, _ = eng.load(st, args[0])
+    eng.store(st, args[0], (q, (args[1], args[2])))
+    return None
+
+
+@intr("(*" + GIN_T + ").Done", "(*" + GIN_T + ").Err", "(*" + GIN_T + ").Value", "(*" + GIN_T + ").Deadline")
+def gin_ctx_methods(eng, st, fr, args, ins):
+    return None
+
+
+@intr("github.com/agglayer/aggkit/internal/zzverifhttp.HTTPResult")
+def zz_httpresult(eng, st, fr, args, ins):
+    q, resp = eng.load(st, args[0])
+    if resp is None:
+        return 0
+    code, obj = resp
+    out = args[1]
+    if isinstance(out, Iface) and isinstance(obj, Iface):
+        # out: pointer to T ; obj: T or *T
+        if out.tid == "*" + obj.tid:
+            eng.store(st, out.val, obj.val)
+        elif out.tid == obj.tid:
+            eng.store(st, out.val, eng.load(st, obj.val))
+    return code
